@@ -600,6 +600,41 @@ func (c *specCtx) call(t *ast.CallExpr, n *SpecNode) Val {
 		// fresh(p): reference allocated during this call
 		v := arg(0)
 		return boolVal(app("bvuge", v.L[0], c.old.alloc))
+	case "sameExcept":
+		// sameExcept("pkg.Type.field", obj...): every object other than obj... has the same
+		// value in that heap region as in the old state (frame condition for loop invariants)
+		lit, ok := t.Args[0].(*ast.BasicLit)
+		if !ok {
+			return c.fail("sameExcept: first argument must be a string literal")
+		}
+		reg, _ := strconv.Unquote(lit.Value)
+		var bases []string
+		for i := 1; i < len(t.Args); i++ {
+			v := arg(i)
+			if isInterface(v.T) {
+				bases = append(bases, app("iref", v.L[0]))
+			} else {
+				bases = append(bases, v.L[0])
+			}
+		}
+		var parts []string
+		for _, hk := range sortedKeys(c.x.heapSort) {
+			if !(hk == reg || strings.HasPrefix(hk, reg+".") || strings.HasPrefix(hk, reg+"#")) {
+				continue
+			}
+			cur, old := c.x.heapArr(c.st, hk), c.x.heapArr(c.old, hk)
+			if cur == old {
+				continue
+			}
+			c.x.smt.fresh++
+			q := fmt.Sprintf("q!f!%d", c.x.smt.fresh)
+			var conds []string
+			for _, b := range bases {
+				conds = append(conds, not(eq(q, b)))
+			}
+			parts = append(parts, fmt.Sprintf("(forall ((%s %s)) (=> %s (= (select %s %s) (select %s %s))))", q, SRef, and(conds...), cur, q, old, q))
+		}
+		return boolVal(and(parts...))
 	case "allocated":
 		// allocated(p): reference exists in the current state (allocated before now)
 		v := arg(0)
